@@ -14,7 +14,8 @@ class LazilyIndexedWrapper(BackendArray):
         self.array = array
         self.lock = lock
         self.shape = array.shape
-        self.dtype = array.dtype
+        # the array may carry its dtype as a string (e.g. when decoded from a cache)
+        self.dtype = np.dtype(array.dtype)
 
     def __getitem__(self, key: indexing.ExplicitIndexer) -> np.typing.ArrayLike:
         return indexing.explicit_indexing_adapter(
